@@ -88,6 +88,29 @@ def generate():
     b += "/-- scriptlet tag triples (script, flags, prog) -/\n"
     b += "def scriptletTags : List (String × Nat × Nat × Nat) := [" + ", ".join(
         f'("{n}", {tagmap.get(a, 0)}, {tagmap.get(bb, 0)}, {tagmap.get(c, 0)})' for n, a, bb, c in triples) + "]\n"
+    # crate version (env!("CARGO_PKG_VERSION") in the RPMVERSION tag)
+    cargo = read("Cargo.toml")
+    mv = re.search(r'^\[package\].*?^version\s*=\s*"([^"]+)"', cargo, re.S | re.M)
+    if not mv:
+        degraded.append(("Constants", "package version not found in Cargo.toml"))
+    ver = mv.group(1) if mv else ""
+    b += f"/-- CARGO_PKG_VERSION = \"{ver}\" -/\ndef CARGO_PKG_VERSION : List UInt8 := [{', '.join(str(x) for x in ver.encode())}]\n"
+    # bitflags! blocks: `const NAME = expr;` with `1 << n`, literals and `Self::X.bits() | …`
+    for m in re.finditer(r"pub struct (\w+): u32 \{(.*?)\n    \}", src, re.S):
+        name, body = m.group(1), m.group(2)
+        fenv = {}
+        b += f"\nnamespace {name}\n"
+        for c in re.finditer(r"const (\w+)\s*=\s*([^;]+);", body):
+            expr = re.sub(r"Self::(\w+)\.bits\(\)", r"\1", c.group(2))
+            try:
+                val = evaluate(expr, fenv)
+            except Exception as e:
+                degraded.append(("Constants", f"bitflag {name}::{c.group(1)}: {e!r}"))
+                continue
+            fenv[c.group(1)] = val
+            b += f"def {c.group(1)} : Nat := {val}\n"
+        b += f"def all : Nat := {__import__('functools').reduce(lambda a, x: a | x, fenv.values(), 0)}\n"
+        b += f"end {name}\n"
     b += "end RpmVerif.Gen\n"
     if len(tags) < 100 or len(sigtags) < 10 or len(algos) < 3 or len(triples) < 8:
         degraded.append(("Constants", f"suspiciously few items: {len(tags)} tags, {len(sigtags)} sigtags, {len(algos)} algos, {len(triples)} scriptlet triples"))
